@@ -13,6 +13,7 @@ from ..core import CaseResult, bind_repo
 
 PROP = "C08"
 LEVEL = "exploration"
+SECOND_SCHEDULE = 2  # stride of the reverse-order history pass (0 = off, 1 = every case)
 RULE = ("237 settings x conforming cells (oblique ones for triclinic/monoclinic/rhombohedral) x atom lists {two general-position atoms; "
         "up to three special positions per group taken from the rational grid, with the exact orbit size as site multiplicity} x ADP "
         "{none, Uiso, Uani (symmetrised over the site stabiliser for special positions)} x dispersion {absent, full, partially None} x "
